@@ -156,6 +156,14 @@ def gen(seed, tier, extra=None):
                 comps = [rng.randint(100, 9000), rng.randint(-30, 40), rng.randint(-10000, 10000)]
                 for _i in range(rng.choice([0, 1, 2, 3, 4, 4])):
                     comps.append(rng.randint(-5000, 5000))
+                # the ends of the quantifier's ranges, alone and together
+                re_ = stream(seed, f'edge:{len(ops)}')
+                if re_.random() < 0.25:
+                    edges = [[100, 101, 102, 103, 8997, 8998, 8999, 9000], [-30, -29, -24, -13, -12, -11, -1, 0, 1, 12, 13, 24, 36, 39, 40],
+                             [-10000, -9999, -9800, -1, 0, 1, 9800, 9999, 10000]] + [[-5000, -4999, -1, 0, 1, 4999, 5000]] * 4
+                    for ci in range(len(comps)):
+                        if re_.random() < 0.5:
+                            comps[ci] = re_.choice(edges[ci])
             else:
                 # near the clock's year with mild overflow: lands in gaps, folds, month ends
                 comps = [year, rng.randint(0, 13), rng.choice([0, 1, 28, 29, 30, 31, 32, rng.randint(-40, 70)])]
